@@ -153,7 +153,10 @@ def designs():
     for d, q in [("self.i[0]", "self.ob"), ("self.i[2]", "self.o[3]")]:
         add(f"single-reg/{d}->{q}", lambda h, d=d, q=q: [inst(h, *REG, dict(clk="self.clk", d=d, q=q))], [("leafreg", dict(clk="self.clk", d=d, q=q))])
     for x, u, yv, ys in [("self.i[1:0]", "self.j", "self.o[1:0]", "self.ou"), ("self.i[3:2]", "self.i[1:0].unsigned", "self.o[3:2]", "self.ou"),
-                         ("self.j.bitvector", "self.j", "self.o[2:1]", "self.ou")]:
+                         ("self.j.bitvector", "self.j", "self.o[2:1]", "self.ou"),
+                         # typed views on output actuals (conversion on the formal side of the association)
+                         ("self.i[1:0]", "self.j", "self.oc.bitvector", "self.ou"),
+                         ("self.i[2:1]", "self.i[3:2].unsigned", "self.oc.bitvector", "self.o[2:0].unsigned")]:
         add(f"single-vec/{x},{u}->{yv}", lambda h, x=x, u=u, yv=yv, ys=ys: [inst(h, *VEC, dict(x=x, u=u, yv=yv, ys=ys))],
             [("leafvec", dict(x=x, u=u, yv=yv, ys=ys))])
     add("single-fsm", lambda h: [inst(h, *FSM, dict(clk="self.clk", go="self.i[0]", pulse="self.ob", cnt="self.oc"))],
